@@ -23,7 +23,8 @@ class LoopContract:
 
 class Contract:
     def __init__(self, qualname, params=None, requires=(), ensures=(), raises=None, loops=None,
-                 result_type="int", inline=False, merged=False, pure=True, note=""):
+                 result_type="int", inline=False, merged=False, pure=True, note="", logical_result=None):
+        self.logical_result = logical_result
         self.qualname = qualname
         self.params = params or {}                 # name -> type tag ('int','bool','cell','intlist','optint',...)
         self.requires = _labelled(requires, "pre")
